@@ -329,6 +329,12 @@ func runH2(k *kernel.K, focus string) {
 			if w.Chance(1, 10) {
 				out = append(out, &H2Op{Kind: "ping", Ping: [8]byte{byte(len(out)), 1, 2, 3, 4, 5, 6, 7}})
 			}
+			if w.Chance(1, 30) {
+				// a frame of a type RFC 7540 does not define (e.g. PRIORITY_UPDATE, 0x10): receivers
+				// must ignore it, the session goes on
+				out = append(out, &H2Op{Kind: "extension"})
+				k.Probe("extension_frame_sent")
+			}
 			if windows && w.Chance(1, 8) {
 				id := http2.SettingInitialWindowSize
 				out = append(out, &H2Op{Kind: "settings", Settings: []http2.Setting{{ID: id, Val: winVals[w.Draw(len(winVals))]}}})
